@@ -219,10 +219,16 @@ def prepareMetadataPdu : SM Unit := do
       if p.remoteCfg.isNone then throw .assertionError
       addPacket (mkMd p.conf p.closure 15 0 none none msgs)
     else
-      match p.remoteCfg, req.src, req.dst with
-      | some rc, some src, some dst => addPacket (mkMd p.conf p.closure rc.cks p.fileSize (some src) (some dst) msgs)
-      | none, _, _ => throw .assertionError
-      | _, _, _ => throw .attributeError
+      match p.remoteCfg with
+      | none => throw .assertionError
+      | some rc =>
+        -- `source_file.as_posix()` / `dest_file.as_posix()` of a request that names only one of them
+        match req.src with
+        | none => throw .attributeError
+        | some src =>
+          match req.dst with
+          | none => throw .attributeError
+          | some dst => addPacket (mkMd p.conf p.closure rc.cks p.fileSize (some src) (some dst) msgs)
 
 /-- `_prepare_file_data_pdu` (source.py:898-912) -/
 def prepareFileDataPdu (off len : Nat) : SM Unit := do
